@@ -132,9 +132,11 @@ func RunClientUpdater(statusport int, abort <-chan struct{}) {
 
 			// Send state to clients now.
 			message, err := json.Marshal(update.state)
-			if err == nil {
-				publish(pubSocket, update, message)
+			if err != nil {
+				// Nothing was published, so there is nothing to remember or to save.
+				continue
 			}
+			publish(pubSocket, update, message)
 
 			// Don't save NEWDASTARD messages--they don't contain state
 			if update.tag == "NEWDASTARD" {
